@@ -3,14 +3,9 @@
 package ojg
 
 import (
-	"math"
 	"strconv"
 	"time"
 )
-
-// 23 for fraction in IEEE 754 which amounts to 7 significant digits. Use base
-// 10 so that numbers look correct when displayed in base 10.
-const fracMax = 10000000.0
 
 // Converter types are used to convert data element to alternate
 // values. Common uses are to match a pattern such as strings representing
@@ -176,11 +171,11 @@ func (c *Converter) convert(v any) (any, bool) {
 	case uint64:
 		return c.convert(int64(tv))
 	case float32:
-		// This small rounding makes the conversion from 32 bit to 64 bit
-		// display nicer.
-		f, i := math.Frexp(float64(tv))
-		f = float64(int64(f*fracMax)) / fracMax
-		return c.convert(math.Ldexp(f, i))
+		// Going through the shortest decimal that identifies the float32
+		// makes the conversion from 32 bit to 64 bit display nicer without
+		// changing the float32 value (NaN and infinities included).
+		f, _ := strconv.ParseFloat(strconv.FormatFloat(float64(tv), 'g', -1, 32), 64)
+		return c.convert(f)
 	}
 	return v, false
 }
